@@ -30,13 +30,18 @@ def run(cmd, cwd=None, env=None):
     return p.returncode, p.stdout
 
 
+differs = []
+
+
 def evaluate(src_root):
     untranslated = []
+    differs.clear()
     for t in check.TRANSLATORS:
         path = os.path.join(copy, "tools", t)
         if os.path.exists(path):
             rc, out = run([sys.executable, path], env={"VERIF_REPO": src_root})
             untranslated += [l.split(" -> ")[0] for l in out.split("\n") if "UNTRANSLATED" in l]
+            differs.extend(l.split(" -> ")[0] for l in out.split("\n") if "-> DIFFERS" in l)
             if rc != 0:
                 untranslated.append(t + " CRASHED")
     rc, out = run(["lake", "build"] + mods, cwd=os.path.join(copy, "lean"))
@@ -64,8 +69,8 @@ for name in names:
         continue
     unt, failing = evaluate(scratch)
     files = sorted(set(f for f, _ in failing))
-    results[name] = {"untranslated": unt, "failing": ["%s:%s" % x for x in failing]}
-    print("%-55s ties failing: %-40s untranslated: %s" % (name, ",".join(files) or "-", ", ".join(unt) or "-"), flush=True)
+    results[name] = {"untranslated": unt, "failing": ["%s:%s" % x for x in failing], "differs": list(differs)}
+    print("%-55s ties failing: %-40s differs: %-30s untranslated: %s" % (name, ",".join(files) or "-", ", ".join(differs) or "-", ", ".join(unt) or "-"), flush=True)
 shutil.rmtree(scratch, ignore_errors=True)
 # restore the generated files of the copy
 unt, failing = evaluate(pristine)
